@@ -111,7 +111,7 @@ inline void run_group(const ApiGroup& G, const BoxOpts& o, const std::function<v
               NormShape s; s.N = N; s.k = k; s.rs = rs; s.rsl = rsl; s.as = as; s.asl = asl; s.variant = G.sub; s.dataset = (int)((rs + as) % 3);
               ApiCase c = gen_normalize(mod, s, cfg);
               fn(c);
-              if (o.inplace && rsl == asl) { s.alias = 1; ApiCase ca = gen_normalize(mod, s, cfg); fn(ca); }
+              if (o.inplace && (rsl == asl || rs <= 1)) { s.alias = 1; ApiCase ca = gen_normalize(mod, s, cfg); fn(ca); }
             }
           } else {
             std::vector<std::vector<uint64_t>> RG;
@@ -123,6 +123,7 @@ inline void run_group(const ApiGroup& G, const BoxOpts& o, const std::function<v
               NormShape s; s.N = N; s.k = k; s.rs = rs; s.rsl = rsl; s.variant = 2; s.begin = begin; s.end = end; s.step = step; s.dataset = (int)((rs + end) % 3);
               ApiCase c = gen_normalize(mod, s, cfg);
               fn(c);
+              if (o.inplace && begin == 0 && (rs <= 1 || (step == 1 && rsl == N))) { s.alias = 1; ApiCase ca = gen_normalize(mod, s, cfg); fn(ca); }
             }
           }
         }
